@@ -184,7 +184,10 @@ class Session:
         U2, net2 = dyn.build(self.uspec, self.build_ops)
         eng2 = make_engine(kind, "empty")
         ic2 = self.init_for(U2, op, kind)
-        return max(1, dyn.count_line_events(lambda: net2.step(init_conditions=ic2, engine=eng2, **dyn.step_kwargs(op["opts"]))))
+        try:
+            return max(1, dyn.count_line_events(lambda: net2.step(init_conditions=ic2, engine=eng2, **dyn.step_kwargs(op["opts"]))))
+        except Exception:
+            return 400  # the calibration twin failed: the real call is classified by the caller
 
     def do_compile(self, op, i):
         if self.last_sym is None:
